@@ -73,4 +73,9 @@ CLAIMED['C18'] = ('DESIGN.md 4/C18', 'combine_at_angle / compute_rotated on symb
     'parameter names and callables): every scanned value shown to be the measure of that combination; Cluster.same_start '
     'for 2..4 signals and every master index; Cluster.time_match with symbolic master samples and fill values for every '
     'lag inside the window (each running-minimum comparison a fork, quadratic misfits decided by z3).')
+CLAIMED['C16'] = ('DESIGN.md 4/C16', 'save_signal -> every loader entry point executed with symbolic values (inside enumerated '
+    'sign/decade classes), symbolic decimal digits of dt and enumerated lengths/labels/scale factors: the real formatting '
+    'code and file system run on sentinel doubles, the symbolic meaning is recovered on read-back (value tokens within half '
+    'a unit of the last digit the CURRENT source writes; dt text re-evaluated positionally over symbolic digits), and z3 '
+    'decides npts, dt to 4 decimals, values to 6 decimals, label and returned type.')
 NOT_APPLICABLE = {}
